@@ -17,7 +17,7 @@ def strip_t(evs):
 def run(ctx):
     quick = ctx.quick
     rng = ctx.rng.fork("C13")
-    n = 16 if quick else 200
+    n = 16 if quick else 800
     known = vlib.load_known_findings("C13")
     lines, meta = [], []
     for i in range(n):
